@@ -1,7 +1,6 @@
-(* C13 — gcem::round (constant evaluation: sgn(x) * (long long)(floor(|x|) + [|x| - floor(|x|) >= 1/2]))
+(* C13 — gcem::round (constant evaluation: sgn(x) * (floor(|x|) + [|x| - floor(|x|) >= 1/2]))
    = IEC 60559 roundToIntegralTiesToAway (run time), for every value of every format with
-   2 <= precision <= 63 < emax.  With a 64-bit significand (x87 long double) the conversion of
-   floor(|x|) + 1 to long long overflows for |x| = 2^63 - 1/2: see round_p64_overflows. *)
+   2 <= precision <= 64 < emax. *)
 From Tetl Require Import Lib.Base C13.Float C13.Model C13.Spec C13.ProofsKit C13.ProofsCls C13.ProofsRoundKit
   C13.ProofsFloor C13.ProofsCeilTrunc.
 From Coq Require Import ZifyBool.
@@ -53,22 +52,18 @@ Qed.
 Section RoundAway.
 Variable f : fmt.
 Hypothesis Hf : fmt_ok f.
-Hypothesis Hp63 : prec f <= 63.
 Local Notation p := (prec f).
 
-Lemma P_lt : 2 ^ (p - 1) <= 2 ^ 62.
-Proof. destruct Hf as [[H1 H2] H3]. apply Z.pow_le_mono_r; lia. Qed.
-
-(* find_whole(|x|) for |x| = a * 2^-k *)
-Lemma find_whole_mk : forall k a, 0 <= k -> 0 < a -> a < 2 ^ (p - 1 + k) ->
+(* round_int(|x|) for |x| = a * 2^-k *)
+Lemma round_int_mk : forall k a, 0 <= k -> 0 < a -> a < 2 ^ (p - 1 + k) ->
   (forall r, Z.abs r <= a -> rep f k r) ->
-  gcem_find_whole f (mk k a) =
-  Ok (a / 2 ^ k + (if (1 <=? k) && (2 ^ (k - 1) <=? a mod 2 ^ k) then 1 else 0)).
+  gcem_round_int f (mk k a) =
+  Ok (mk 0 (a / 2 ^ k + (if (1 <=? k) && (2 ^ (k - 1) <=? a mod 2 ^ k) then 1 else 0))).
 Proof.
   intros k a Hk Ha Hlt Hlow.
-  pose proof (P_bounds f Hf) as HP. pose proof P_lt as HP2.
+  pose proof (P_bounds f Hf) as HP.
   pose proof (pow2_gt0 k Hk) as HD.
-  unfold gcem_find_whole. change (gcem_floor_check f (mk k a)) with (ct_floor f (mk k a)).
+  unfold gcem_round_int. change (gcem_floor_check f (mk k a)) with (ct_floor f (mk k a)).
   rewrite ct_floor_ladder.
   rewrite ladder_small; [|exact Hf|exact Hk|lia|lia].
   rewrite (floor_kern f Hf); [|exact Hk|lia|lia].
@@ -87,41 +82,36 @@ Proof.
   - (* scale 0: the value is an integer *)
     change (2 ^ 0) with 1 in *. rewrite Z.mod_1_r. cbn [Z.leb Z.compare andb].
     change (fge (mk 0 0) fhalf) with false. cbv iota.
-    rewrite to_llint_mk by (change (2 ^ 0) with 1; rewrite ?Z.quot_1_r; lia).
-    change (2 ^ 0) with 1. rewrite Z.quot_1_r. f_equal. lia.
+    rewrite Z.add_0_r, Z.mul_1_r. reflexivity.
   - replace (1 <=? k) with true by lia. cbn [andb].
     rewrite (fhalf_mk k) by lia. rewrite mk_fge.
     destruct (2 ^ (k - 1) <=? a mod 2 ^ k) eqn:Hh.
     + rewrite (of_int_small f Hf k 1 Hk) by lia.
       assert (Hrep1 : rep f k ((a / 2 ^ k + 1) * 2 ^ k)) by (apply rep_int; [exact Hf|exact Hk|lia]).
-      replace (a / 2 ^ k * 2 ^ k + 1 * 2 ^ k) with ((a / 2 ^ k + 1) * 2 ^ k) in * by lia.
       rewrite mk_add by (replace (a / 2 ^ k * 2 ^ k + 1 * 2 ^ k) with ((a / 2 ^ k + 1) * 2 ^ k) by lia; exact Hrep1).
       replace (a / 2 ^ k * 2 ^ k + 1 * 2 ^ k) with ((a / 2 ^ k + 1) * 2 ^ k) by lia.
-      rewrite to_llint_mk by (rewrite ?Z.quot_mul by lia; lia).
-      rewrite Z.quot_mul by lia. reflexivity.
-    + rewrite to_llint_mk by (rewrite ?Z.quot_mul by lia; lia).
-      rewrite Z.quot_mul by lia. f_equal. lia.
+      rewrite mk_int by lia. reflexivity.
+    + rewrite mk_int by lia. rewrite Z.add_0_r. reflexivity.
 Qed.
 
 Lemma round_kern : forall k v, 0 <= k -> v <> 0 -> Z.abs v < 2 ^ (p - 1 + k) ->
   (forall r, Z.abs r <= Z.abs v -> rep f k r) ->
-  (do w <- gcem_find_whole f (gcem_abs (mk k v));
-   Ok (fmul f (of_int f (gcem_sgn (mk k v))) (of_int f w)))
+  (do w <- gcem_round_int f (gcem_abs (mk k v));
+   Ok (fmul f (of_int f (gcem_sgn (mk k v))) w))
   = Ok (fofZ (v <? 0)
          (Z.sgn v * (Z.abs v / 2 ^ k + (if (1 <=? k) && (2 ^ (k - 1) <=? Z.abs v mod 2 ^ k) then 1 else 0)))).
 Proof.
   intros k v Hk Hv Hlt Hlow.
-  pose proof (P_bounds f Hf) as HP. pose proof P_lt as HP2.
+  pose proof (P_bounds f Hf) as HP.
   pose proof (pow2_gt0 k Hk) as HD.
   rewrite gcem_abs_mk, gcem_sgn_mk.
-  rewrite find_whole_mk; [|exact Hk|lia|lia|exact Hlow]. cbn [rbind]. f_equal.
+  rewrite round_int_mk; [|exact Hk|lia|lia|exact Hlow]. cbn [rbind]. f_equal.
   rewrite (PD f Hf k Hk) in Hlt.
   assert (Hq : 0 <= Z.abs v / 2 ^ k < 2 ^ (p - 1)).
   { split; [apply Z.div_pos; lia|]. apply Z.div_lt_upper_bound; lia. }
   set (w := Z.abs v / 2 ^ k + (if (1 <=? k) && (2 ^ (k - 1) <=? Z.abs v mod 2 ^ k) then 1 else 0)).
   assert (Hw : 0 <= w <= 2 ^ (p - 1)).
   { unfold w. destruct ((1 <=? k) && (2 ^ (k - 1) <=? Z.abs v mod 2 ^ k)); lia. }
-  rewrite (of_int_small0 f Hf w) by lia.
   rewrite (of_int_small0 f Hf (Z.sgn v)) by lia.
   rewrite fmul_sign; [|lia|lia|apply (small_rep f Hf); lia].
   f_equal. lia.
@@ -160,9 +150,9 @@ Proof.
 Qed.
 End RoundAway.
 
-(* precision 64: round(2^63 - 1/2) converts 2^63 to long long (recorded finding KF-C13-round-ld-2p63);
-   the specification's answer is 2^63 *)
-Lemma round_p64_overflows :
+(* precision 64 (x87 long double): round(2^63 - 1/2) = 2^63, the case in which the former
+   find_whole-based code converted 2^63 to long long *)
+Lemma round_p64_edge :
   let x := FFin false 18446744073709551615 (-1) in
-  valid x87ext x = true /\ ct_round x87ext x = UB SignedOverflow /\ rt_round x = FFin false 1 63.
+  valid x87ext x = true /\ ct_round x87ext x = Ok (FFin false 1 63) /\ rt_round x = FFin false 1 63.
 Proof. cbv zeta. split; [|split]; vm_compute; reflexivity. Qed.
